@@ -18,11 +18,12 @@ import random
 
 import numpy as np
 
-from . import core
+from . import core, pylite_tie
 from .core import Case, cD, cZ, cN, clist, cbool
 from .c09 import (_cloud, _lattice, _distinct_values, _fix_weights, _cd, _cdl, _cdll, _fmt, _same, LAYOUTS,
                   apply_layout, first_call_args, cast_variant, params_snapshot, weight_patterns, geo_term, geometry_configs)
 
+obligations = pylite_tie.c10_obligations   # source-regenerated tie of variance_to_weights (harness/pylite_tie.py, pylite_weights.v.tmpl)
 ID = "C10"
 PROPS_FILE = "Props/C10.v"
 IMPORTS = "From Verde Require Import Lib.QList Model.BlockReduce Model.Weights Model.BlockGeo."
